@@ -494,7 +494,13 @@ func (ex *Exec) site() (fn, pkg, src, pos string, stack []string) {
 		fr := ex.stack[i]
 		if ex.W.isLibFunc(fr.fn) {
 			p := fr.curPos()
-			return relFuncName(fr.fn), fr.fn.Pkg.Pkg.Path(), ex.W.srcLine(p), ex.W.posString(p), stack
+			pkgPath := ""
+			if fr.fn.Pkg != nil {
+				pkgPath = fr.fn.Pkg.Pkg.Path()
+			} else if o := fr.fn.Origin(); o != nil && o.Pkg != nil {
+				pkgPath = o.Pkg.Pkg.Path() // instantiated generic
+			}
+			return relFuncName(fr.fn), pkgPath, ex.W.srcLine(p), ex.W.posString(p), stack
 		}
 	}
 	if len(ex.stack) > 0 {
